@@ -298,6 +298,8 @@ func VerifHeaderParse(d []byte, p int, dl int, l int) {}
 //@   ensures [len] len(r) == len(options) + 1 && 0 <= p && p <= len(options)
 //@   ensures [array] (len(options) < cap(options) ==> r[0:0] == options[0:0] && cap(r) == cap(options)) && (len(options) == cap(options) ==> fresh(r))
 //@   ensures [position] forall i int :: {old(options[i].ID)} 0 <= i && i < len(options) ==> ((i < p) <==> old(options[i].ID) <= opt.ID)
+//@   ensures [position-next] p < len(options) ==> old(options[p].ID) > opt.ID
+//@   ensures [position-prev] p > 0 ==> old(options[p - 1].ID) <= opt.ID
 //@   ensures [before] forall i int :: {r[i].ID} 0 <= i && i < p ==> r[i] == old(options[i])
 //@   ensures [inserted] r[p] == opt
 //@   ensures [after] forall i int :: {r[i].ID} p < i && i < len(r) ==> r[i] == old(options[i - 1])
@@ -473,15 +475,21 @@ func VerifHeaderParse(d []byte, p int, dl int, l int) {}
 //@   ensures [fits-iff] (err == nil) <==> sumLens(in, len(in)) <= len(buf)
 //@   ensures [err-kind] err != nil ==> err == ErrTooSmall && r == options
 //@   ensures [error-atomic] err != nil ==> (forall i int :: {options[i].ID} 0 <= i && i < len(options) ==> options[i] == old(options[i])) && bytesEqOld(buf, buf)
-//@   ensures [copied] err == nil ==> len(r) == len(in) && (forall j int :: {r[j].ID} 0 <= j && j < len(in) ==> r[j].ID == in[j].ID && r[j].Value == buf[sumLens(in, j) : sumLens(in, j + 1)] && bytesEqOld(r[j].Value, in[j].Value))
+//@   ensures [copied-ids] err == nil ==> len(r) == len(in) && (forall j int :: {r[j].ID} 0 <= j && j < len(in) ==> r[j].ID == in[j].ID)
+//@   ensures [copied-slices] err == nil ==> (forall j int :: {r[j].ID} 0 <= j && j < len(in) ==> r[j].Value == buf[sumLens(in, j) : sumLens(in, j + 1)])
+//@   ensures [copied-bytes] err == nil ==> (forall j int :: {r[j].ID} 0 <= j && j < len(in) ==> bytesEqOld(r[j].Value, in[j].Value))
 //@   loop 0:
-//@     modifies buf[0 : len(buf)], options[0 : cap(options)]
-//@     invariant 0 <= #iter && #iter <= len(in) && len(opts) == #iter && used == sumLens(in, #iter) && 0 <= used && used <= 281474976710656 * #iter
-//@     invariant buf == old(buf)[used : ] && used <= len(old(buf))
-//@     invariant (opts[0:0] == options[0:0] && cap(opts) == cap(options)) || fresh(opts)
-//@     invariant forall j int :: {opts[j].ID} 0 <= j && j < #iter ==> opts[j].ID == in[j].ID && opts[j].Value == old(buf)[sumLens(in, j) : sumLens(in, j + 1)] && 0 <= sumLens(in, j) && sumLens(in, j + 1) <= used && bytesEqOld(opts[j].Value, in[j].Value)
+//@     invariant 0 <= #iter && #iter <= len(in) && needed == sumLens(in, #iter) && 0 <= needed && needed <= 281474976710656 * #iter
+//@     invariant forall j int :: {sumLens(in, j)} 0 <= j && j <= #iter ==> 0 <= sumLens(in, j) && sumLens(in, j) <= needed
 //@     decreases len(in) - #iter
 //@   loop 1:
-//@     invariant idx <= i && i <= len(in) && used == sumLens(in, i) && 0 <= used && used <= 281474976710656 * i
-//@     invariant sumLens(in, i) >= sumLens(in, idx) + ite(i > idx, len(in[idx].Value), 0)
-//@     decreases len(in) - i
+//@     modifies buf[0 : len(buf)], options[0 : cap(options)]
+//@     invariant 0 <= #iter && #iter <= len(in) && len(opts) == #iter && used == sumLens(in, #iter) && 0 <= used && used <= 281474976710656 * #iter
+//@     invariant buf == old(buf)[used : ] && used <= len(old(buf)) && needed == sumLens(in, len(in)) && needed <= len(old(buf))
+//@     invariant (opts[0:0] == options[0:0] && cap(opts) == cap(options)) || fresh(opts)
+//@     invariant forall j int :: {sumLens(in, j)} 0 <= j && j <= len(in) ==> 0 <= sumLens(in, j) && sumLens(in, j) <= needed
+//@     invariant [ids] forall j int :: {opts[j].ID} 0 <= j && j < #iter ==> opts[j].ID == in[j].ID
+//@     invariant [slices] forall j int :: {opts[j].ID} 0 <= j && j < #iter ==> opts[j].Value == old(buf)[sumLens(in, j) : sumLens(in, j + 1)] && 0 <= sumLens(in, j) && sumLens(in, j + 1) <= used
+//@     invariant [bytes] forall j int :: {opts[j].ID} 0 <= j && j < #iter ==> bytesEqOld(opts[j].Value, in[j].Value)
+//@     unfold sumLens(in, #iter + 1)
+//@     decreases len(in) - #iter
